@@ -262,6 +262,13 @@ def run(ctx):
                        "raises IndexError (format without arguments) out of the parser" % (c.name, "lower" if not lower else "upper"))
         if not found:
             r.fail(m, m.node, "no int arm", "%s.has_argument has no by-position arm" % c.name)
+    # ---------------------------------------------------------------- R6
+    from .c05 import scratch_rule
+
+    r = ctx.rule("C02-R6", "RESET", "what one parse collected cannot influence the verdict on the next line: the "
+                 "parser's scratch attributes are re-initialised before their first use, also after a parse that "
+                 "ended in an error (same rule as C05-R1)", reference=2)
+    scratch_rule(ctx, r, parse)
     return ctx.results
 
 
